@@ -8,7 +8,7 @@ Import ListNotations.
 Require Import Fggs.Model.Json.
 Require Import Fggs.Proofs.Json_base Fggs.Proofs.Json_iso Fggs.Proofs.Json_rule Fggs.Proofs.Json_roundtrip
                Fggs.Proofs.Json_oor Fggs.Proofs.Json_dense Fggs.Proofs.Json_wparse Fggs.Proofs.Json_weights
-               Fggs.Proofs.Json_findings Fggs.Proofs.Json_fgg.
+               Fggs.Proofs.Json_findings Fggs.Proofs.Json_fgg Fggs.Proofs.Json_count.
 
 (** * (A) round trip up to renaming of implicit ids
     [hrg_iso g g']: same start; the edge-label tables are the same map name -> label (so same
@@ -58,6 +58,37 @@ Theorem C14_iso_oracle_sound :
   forall g g' perms, hrg_iso_b g g' perms = true -> hrg_iso g g'.
 Proof. exact hrg_iso_b_sound. Qed.
 Print Assumptions C14_iso_oracle_sound.
+
+(** * (A) repeated rules: an HRG is a list of rules per left-hand side; a rule that occurs twice (the
+    same object added twice, an equal copy with identical explicit ids) is kept twice.  The round trip
+    keeps the number of rules of every left-hand side and in total (nothing in [wf_hrg] forbids equal
+    rules: [dup_hrg_wf], [dup_hrg_roundtrip] in Proofs/Json_count.v) ... *)
+Theorem C14_roundtrip_rule_counts :
+  forall (dec : nat -> str) (g : hrg) (c : nat),
+    wf_hrg g = true ->
+    exists j g', hrg_to_json_model dec g = Ok j /\ json_to_hrg_model c j = Ok g' /\
+      (forall lhs, length (rules_of (h_rules g') lhs) = length (rules_of (h_rules g) lhs)) /\
+      length (all_rules g') = length (all_rules g).
+Proof. exact roundtrip_rule_counts. Qed.
+Print Assumptions C14_roundtrip_rule_counts.
+
+(** ... and the oracle rejects, for EVERY witness it is handed, a result in which some left-hand side
+    has lost or gained a rule (partial completeness of [hrg_iso_b]: a dropped duplicate is verdict 1 of
+    [c14_fgg_check] whatever the harness' search for bijections did); second form: as the check applies
+    it, after [align_rules] *)
+Theorem C14_iso_oracle_rejects_count_mismatch :
+  forall g g' perms lhs,
+    length (rules_of (h_rules g) lhs) <> length (rules_of (h_rules g') lhs) -> hrg_iso_b g g' perms = false.
+Proof. exact iso_oracle_rejects_count_mismatch. Qed.
+Print Assumptions C14_iso_oracle_rejects_count_mismatch.
+
+Theorem C14_check_rejects_dropped_rule :
+  forall g g' perms lhs,
+    wf_hrg g = true -> In lhs (map fst (h_rules g)) ->
+    length (rules_of (h_rules g) lhs) <> length (rules_of (h_rules g') lhs) ->
+    hrg_iso_b g (align_rules g g') perms = false.
+Proof. exact check_rejects_dropped_rule. Qed.
+Print Assumptions C14_check_rejects_dropped_rule.
 
 (** * (A) second round trip, all ids explicit
     [json_to_hrg (hrg_to_json g)] written out again gives the same "terminals", "start" and "rules"
